@@ -136,3 +136,28 @@ theorem sortBy_perm_eq {l₁ l₂ : List α} (hp : l₁.Perm l₂) (hn : (l₁.m
     exact ih₂ ((h₁.map key).nodup_iff.1 hn)
 
 end Rio
+
+namespace Rio
+
+/-- `find?` over a permutation gives the same answer when at most one element satisfies the predicate. -/
+theorem find?_perm_unique {α : Type} (p : α → Bool) {l₁ l₂ : List α} (hp : l₁.Perm l₂)
+    (huniq : ∀ a ∈ l₁, ∀ b ∈ l₁, p a = true → p b = true → a = b) :
+    l₁.find? p = l₂.find? p := by
+  cases h1 : l₁.find? p with
+  | none =>
+    have hn := List.find?_eq_none.1 h1
+    symm
+    exact List.find?_eq_none.2 (fun x hx => hn x (hp.mem_iff.2 hx))
+  | some a =>
+    have ha : a ∈ l₁ := List.mem_of_find?_eq_some h1
+    have hpa : p a = true := List.find?_some h1
+    cases h2 : l₂.find? p with
+    | none =>
+      have := List.find?_eq_none.1 h2 a (hp.mem_iff.1 ha)
+      simp [hpa] at this
+    | some b =>
+      have hb : b ∈ l₁ := hp.mem_iff.2 (List.mem_of_find?_eq_some h2)
+      have hpb : p b = true := List.find?_some h2
+      rw [huniq a ha b hb hpa hpb]
+
+end Rio
